@@ -189,11 +189,14 @@ Proof.
 Qed.
 
 (* with_capacity(capa, width) computes capa * width *)
-Theorem cv_with_capacity_spec c capa w : (wok w = true -> capa * w < W) ->
+Theorem cv_with_capacity_spec c capa w : (wok w = true -> capa * w + 64 < W) ->
   cv_with_capacity c capa w = Ok (cv_new w).
 Proof.
   intro H. unfold cv_with_capacity, cv_new. fold_wok.
-  destruct (wok w); [|reflexivity]. rewrite mul_ok by (apply H; reflexivity). reflexivity.
+  destruct (wok w); [|reflexivity]. specialize (H eq_refl).
+  rewrite mul_ok by lia. cbn [bind].
+  unfold words_for, WORD_LEN. rewrite add_ok by lia. cbn [bind].
+  rewrite sub_ok by lia. reflexivity.
 Qed.
 
 (* len pushes of the same value *)
